@@ -22,6 +22,7 @@
                                   job in flight, delegate cancel succeeds: _delegate_callback returns early on a
                                        cancelled delegate                  AS SHIPPED: job never popped, no dec (D7, D8)
                                   job in flight, delegate cancel fails:    stop_retry := TRUE, returns False
+               RExternalCancel  the attempt in flight is cancelled by somebody else (same early return)
      throttle  TSubmit          submit: track_future, _to_submit.append, THROTTLE_QUEUE ++
                THandOver        _submit_loop_iter: popleft, running ++, THROTTLE_QUEUE --, delegate.submit
                TDelegateDone    delegate done: running --, throttled future resolved
@@ -166,8 +167,19 @@ RDelegateDone(j) ==
                             EvState(j, "FINISHED", IF failed THEN 1 ELSE 0)>>)
   /\ UNCHANGED <<cfg, ratt, rcan, rtot, tvars>>
 
+\* somebody else cancels the attempt in flight (a CancelOnShutdownExecutor or a timeout *below* the retry layer):
+\* _delegate_callback returns early exactly as in CancelInFlight, but the retry future is not resolved - it stays
+\* pending for ever (defect D3, property C03; for C20 the gauges must still describe this state)
+RExternalCancel(j) ==
+  /\ rfut[j] = "pending" /\ rdel[j] = "running" /\ cfgC[j]
+  /\ rdel' = [rdel EXCEPT ![j] = "cancelled"]
+  /\ IF Shipped("inflight") THEN UNCHANGED <<rjobs, rq>> ELSE rjobs' = Without(j) /\ rq' = rq - 1
+  /\ Emit(<<EvState(Child(j, ratt[j]), "CANCELLED", -1)>>)
+  /\ NoFutureMetric
+  /\ UNCHANGED <<cfg, rfut, ratt, rcan, rtot, tvars>>
+
 RCancel(j) ==
-  /\ rfut[j] = "pending" /\ ~rcan[j]
+  /\ rfut[j] = "pending" /\ ~rcan[j] /\ InList(j)
   /\ rcan' = [rcan EXCEPT ![j] = TRUE]
   /\ LET job == rjobs[JobIdx(j)]
          ch == Child(j, ratt[j])
@@ -236,7 +248,7 @@ TCancel(j) ==
   /\ UNCHANGED <<cfg, rvars>>
 
 Next ==
-  \/ \E j \in RJobs : RSubmit(j) \/ RToDelegate(j) \/ RDelegateDone(j) \/ RCancel(j)
+  \/ \E j \in RJobs : RSubmit(j) \/ RToDelegate(j) \/ RDelegateDone(j) \/ RCancel(j) \/ RExternalCancel(j)
   \/ \E j \in TJobs : TSubmit(j) \/ TDelegateDone(j) \/ TCancel(j)
   \/ THandOver
 
